@@ -188,6 +188,20 @@ Theorem C14_dh_rejects_invalid : forall c d xb yb,
 Proof. exact dh_rejects_invalid. Qed.
 Print Assumptions C14_dh_rejects_invalid.
 
+(* ... also in the middle of any sequence of dh() calls on one key object: every result is the
+   result of that call alone (the object keeps no state but the private scalar) ... *)
+Theorem C14_dh_history_pure : forall c d calls i xb yb,
+  nth_error calls i = Some (xb, yb) ->
+  nth_error (ecc_dh_history c d calls) i = Some (ecc_dh c d xb yb).
+Proof. exact dh_history_pure. Qed.
+Print Assumptions C14_dh_history_pure.
+
+Theorem C14_dh_history_rejects_invalid : forall c d calls i xb yb,
+  nth_error calls i = Some (xb, yb) -> on_curve c (be_int xb) (be_int yb) = false ->
+  nth_error (ecc_dh_history c d calls) i = Some InvalidKey.
+Proof. exact dh_history_rejects_invalid. Qed.
+Print Assumptions C14_dh_history_rejects_invalid.
+
 (* ... the validation is exactly y^2 = x^3 + ax + b (mod p), coordinates read modulo p (as the
    OpenSSL-based back end reads them) ... *)
 Theorem C14_on_curve_meaning : forall c x y, 0 < cp c ->
